@@ -18,7 +18,7 @@ import (
 type cliAction string
 
 // racing client actions (after one subscription "1" has been established)
-var c18ClientAlphabet = []cliAction{"stop1", "stop1again", "terminate", "close", "malformed", "unknown", "start-invalid", "truncated", "start2", "stop-unknown"}
+var c18ClientAlphabet = []cliAction{"stop1", "stop1again", "terminate", "close", "malformed", "unknown", "start-invalid", "truncated", "start2", "stop-unknown", "restart1"}
 
 const c18SubTick = "subscription { tick }"
 const c18SubCross = "subscription { n1Changed { name phone } }"
@@ -153,6 +153,9 @@ func c18Harness(h *gwHarness, sc c18Scenario) explore.Harness {
 						ended = true
 					case "start2":
 						writeClientFrame(cli, clientMsg("start", "2", map[string]interface{}{"query": sc.sub}))
+					case "restart1":
+						// the client uses the id of its first subscription again (after a stop: the usual way ids are recycled)
+						writeClientFrame(cli, clientMsg("start", "1", map[string]interface{}{"query": sc.sub}))
 					}
 					if ended {
 						break
@@ -260,7 +263,7 @@ func c18Scenarios(tier string) []c18Scenario {
 	cl2 := [][]cliAction{}
 	for _, a := range []cliAction{"stop1", "start2", "stop-unknown"} {
 		for _, b := range c18ClientAlphabet {
-			if tier == "quick" && (a == "start2" || b == "start2") {
+			if tier == "quick" && (a == "start2" || b == "start2" || b == "restart1") {
 				continue
 			}
 			cl2 = append(cl2, []cliAction{a, b})
@@ -268,7 +271,7 @@ func c18Scenarios(tier string) []c18Scenario {
 	}
 	if tier == "quick" {
 		for _, c := range cl1 {
-			if c[0] == "start2" {
+			if c[0] == "start2" || c[0] == "restart1" {
 				continue // two subscriptions: thorough only (the state space is an order of magnitude larger)
 			}
 			for _, u := range upAlpha {
@@ -282,7 +285,7 @@ func c18Scenarios(tier string) []c18Scenario {
 		}
 		// a second start whose upstream handshake is still in flight when the client leaves (default schedule plus
 		// forced switches only: the handshake blocks on the upstream, the read loop goes on)
-		for _, c := range [][]cliAction{{"start2"}, {"start2", "close"}, {"start2", "stop1"}} {
+		for _, c := range [][]cliAction{{"start2"}, {"start2", "close"}, {"start2", "stop1"}, {"stop1", "restart1"}, {"stop1", "restart1", "stop1"}} {
 			for _, u := range [][]upAction{{}, {"event"}} {
 				out = append(out, c18Scenario{world: "W0+subscription-roots", sub: c18SubTick, client: c, up: [][]upAction{u, u}, timers: 0, bound: 0, planner: "plain"})
 			}
@@ -296,6 +299,10 @@ func c18Scenarios(tier string) []c18Scenario {
 			out = append(out, c18Scenario{world: "W0+subscription-roots", sub: c18SubTick, up: [][]upAction{u, u}, timers: 1, bound: b, planner: "plain", slow: true})
 		}
 		out = append(out, c18Scenario{world: "W0+subscription-roots", sub: c18SubCross, up: [][]upAction{{"event"}, {"event"}}, timers: 1, bound: 1, planner: "plain", slow: true})
+		// the listener of a stopped subscription is still busy (its frame is stuck at the slow reader) when its id is used again
+		for _, c := range [][]cliAction{{"stop1", "restart1"}, {"stop1", "restart1", "stop1"}} {
+			out = append(out, c18Scenario{world: "W0+subscription-roots", sub: c18SubTick, client: c, up: [][]upAction{{"event"}, {"event"}}, timers: 0, bound: 0, planner: "plain", slow: true})
+		}
 		// a heartbeat firing *and* one preemption (two deviations) while an event is in flight
 		for _, c := range [][]cliAction{{"stop-unknown"}, {"terminate"}} {
 			out = append(out, c18Scenario{world: "W0+subscription-roots", sub: c18SubTick, client: c, up: [][]upAction{{"event"}, {"event"}}, timers: 1, bound: 2, planner: "plain"})
@@ -334,7 +341,7 @@ func c18Scenarios(tier string) []c18Scenario {
 func init() {
 	Specs["C18"] = &Spec{
 		ID: "C18",
-		Rule: "scenario = (client script over {stop, stop again, stop unknown id, terminate, abrupt close, malformed JSON, unknown type, start with invalid query, truncated frame, second start} of length <=2 after one established subscription; " +
+		Rule: "scenario = (client script over {stop, stop again, stop unknown id, terminate, abrupt close, malformed JSON, unknown type, start with invalid query, truncated frame, second start, a start that uses the id of the stopped subscription again} of length <=2 after one established subscription; " +
 			"upstream script per subscription over {event, complete, error, disconnect, error payload} of length <=1 (thorough <=2); heartbeat ticker may fire <=1 (2) times as an environment move; plus a slow reader: the client's receive buffer holds 16 bytes (writes deliver what fits and block, a Write under way keeps other writers out, SetWriteDeadline is a virtual-time timer that fails blocked writes), the client reads nothing from 0 to 6.5 s while events arrive and the 4 s heartbeat comes due, reads on and terminates at 10 s); the real subscriptionHandler, " +
 			"subscriptionEntry.Listen/Close and MultiOpQueryer.Subscribe reader/closer goroutines (rewritten sources) run over scheduler-aware pipes with a hijacked websocket upgrade and a gobwas upstream; every schedule with <=1 (2) preemption " +
 			"inside the window that opens once the first subscription is established is executed (state-cached); invariants: no fatal/panic, no deadlock, handler returns, every goroutine started for the connection terminates, " +
